@@ -24,14 +24,15 @@ func init() {
 		Property: "C18", EngineName: "mapsim",
 		New:       func(tier string) core.Engine { return &mapsim{tier: tier} },
 		QuickRuns: 60000, QuickCapS: 60, ThoroughRun: 3000000, ThoroughCap: 1200,
-		Rule: "a case = (2-4 client step lists over 1-2 Map/Set collections and a 12-slot key pool, interleaving of their <= 40 steps including steps nested inside forEach callbacks, Go-side ForOf steps and generator resumptions); distinct = distinct realised interleaving shape (sequence of client/op-kind with nesting); non-trivial = at least two clients worked on the same collection and a live iterator (native iterator, forEach in progress, suspended generator, Go-side ForOf) was advanced after a mutation made by another client",
+		Rule: "a case = (2-4 client step lists over 1-2 collections (Map, Set, symbol-property table of an ordinary object) and a 12-slot key pool, interleaving of their <= 40 steps including steps nested inside forEach callbacks, Go-side ForOf steps and generator resumptions); distinct = distinct realised interleaving shape (sequence of client/op-kind with nesting); non-trivial = at least two clients worked on the same collection and a live iterator (native iterator, forEach in progress, suspended generator, Go-side ForOf) was advanced after a mutation made by another client",
 		Real: realComponents,
 		Stub: []string{"the client tasks' scheduler (host native Y called from forEach callbacks and generator bodies; Go loop between top-level steps)", "the failing callback (Y throws a JS value)"},
 		Assumptions: []string{
 			"one Runtime is used from one goroutine, so every Map/Set operation is atomic and correctness is equality with the sequential reference model in schedule order",
 			"result rendering on the JS side (helper kidx) identifies a returned key by === / NaN-check against the key table and does not use Map or Set",
 			"Go-side Export() renders undefined and null both as nil; the two are not told apart in export comparisons",
-			"representations of +-2**53 that goja holds as valueFloat are excluded from the key pool unless VERIF_C18_INT53=1 (known defect: they hash differently from valueInt(2**53))",
+			"the symbol-property table is exercised with data properties only: Object.assign / spread run no script code while they walk the table, so goja walking it with a live iterator where the specification takes a key snapshot first is not observable and not asserted (DESIGN 5.3)",
+			"the order of string and index keys of the object carrying the symbol table is not asserted (an ordinary-object matter); asserted are their number, that they precede every symbol in Reflect.ownKeys and that for-in / Object.keys / entries / getOwnPropertyNames / JSON.stringify never list a symbol",
 		},
 		FaultKinds: []string{"callback-throw", "generator-throw", "goforof-throw"},
 	})
@@ -73,8 +74,9 @@ function rlist(rkind, a) {
   for (var i = 0; i < a.length; i++) s += (i ? "," : "") + ren(rkind, a[i]);
   return "[" + s + "]";
 }
-function R(c, s) { return s + "#" + COLS[c].size; }
-function mkCol(c, isSet) { COLS[c] = isSet ? new Set() : new Map(); return COLS[c]; }
+var KINDS = [];
+function R(c, s) { return s + "#" + (KINDS[c] === 2 ? Object.getOwnPropertySymbols(COLS[c]).length : COLS[c].size); }
+function mkCol(c, kind) { KINDS[c] = kind; COLS[c] = kind === 2 ? {} : kind === 1 ? new Set() : new Map(); return COLS[c]; }
 function selfcheck() { var a = []; for (var i = 0; i < KEYS.length; i++) a.push(kidx(KEYS[i])); return a.join(","); }
 function op_set(c, k, v) { var m = COLS[c]; return R(c, m.set(KEYS[k], v) === m ? "ok" : "BADRET"); }
 function op_add(c, k) { var m = COLS[c]; return R(c, m.add(KEYS[k]) === m ? "ok" : "BADRET"); }
@@ -128,6 +130,63 @@ function op_spread(c, which, rkind) {
   var a = which === 0 ? [...m] : which === 1 ? [...m.keys()] : which === 2 ? [...m.values()] : Array.from(m.entries());
   return R(c, rlist(rkind, a));
 }
+// ---- symbol-property table of an ordinary object (KINDS[c] === 2) ----
+function sidx(k) { for (var i = 0; i < NSYM; i++) if (PKEYS[i] === k) return i; return -1; }
+function rsyms(o, a) {
+  // symbols of the key list a with the values they have in o; flags anything that is not a string before the symbols
+  var s = "", seenSym = false, bad = "";
+  for (var i = 0; i < a.length; i++) {
+    var x = a[i];
+    if (typeof x === "symbol") { seenSym = true; s += (s ? "," : "") + "S" + sidx(x) + "=" + rv(o[x]); }
+    else if (typeof x !== "string") bad = "BADKEYTYPE";
+    else if (seenSym) bad = "STRING-AFTER-SYMBOL";
+  }
+  return "[" + s + "]" + bad;
+}
+function nstr(a) { var n = 0; for (var i = 0; i < a.length; i++) if (typeof a[i] === "string") n++; return n; }
+function sy_set(c, k, v, how) {
+  var o = COLS[c], key = PKEYS[k], r = "ok";
+  switch (how) {
+  case 0: o[key] = v; break;
+  case 1: if (Object.defineProperty(o, key, {value: v, writable: true, enumerable: true, configurable: true}) !== o) r = "BADRET"; break;
+  case 2: if (Object.defineProperty(o, key, {value: v, writable: true, enumerable: false, configurable: true}) !== o) r = "BADRET"; break;
+  case 3: if (Object.defineProperty(o, key, {value: v, writable: true, enumerable: true, configurable: false}) !== o) r = "BADRET"; break;
+  default: if (Reflect.set(o, key, v) !== true) r = "false";
+  }
+  return R(c, r);
+}
+function sy_get(c, k) { return R(c, rv(COLS[c][PKEYS[k]])); }
+function sy_has(c, k) {
+  var o = COLS[c], key = PKEYS[k], d = Object.getOwnPropertyDescriptor(o, key);
+  return R(c, (key in o ? "t" : "f") + (Object.prototype.hasOwnProperty.call(o, key) ? "t" : "f") + (Reflect.has(o, key) ? "t" : "f") +
+    (o.propertyIsEnumerable(key) ? "e" : "-") +
+    (d ? (d.enumerable ? "E" : "-") + (d.configurable ? "C" : "-") + (d.writable ? "W" : "-") + ("get" in d ? "ACCESSOR" : "") + ":" + rv(d.value) : "none"));
+}
+function sy_delete(c, k, how) { var o = COLS[c], key = PKEYS[k]; return R(c, String(how ? Reflect.deleteProperty(o, key) : delete o[key])); }
+function sy_clear(c) {
+  var o = COLS[c], a = Object.getOwnPropertySymbols(o), n = 0;
+  for (var i = 0; i < a.length; i++) if (delete o[a[i]]) n++;
+  return R(c, "deleted:" + n);
+}
+function sy_snap(c, which) {
+  var o = COLS[c];
+  if (which === 0) return R(c, rsyms(o, Object.getOwnPropertySymbols(o)));
+  var a = Reflect.ownKeys(o);
+  return R(c, rsyms(o, a) + "/" + nstr(a));
+}
+function sy_copy(c, which) {
+  var o = COLS[c], n = which === 0 ? Object.assign({}, o) : which === 1 ? {...o} : Object.assign(Object.create(null), o);
+  return R(c, rsyms(n, Reflect.ownKeys(n)) + "/" + Object.keys(n).length);
+}
+function sy_forin(c) {
+  var o = COLS[c], n = 0, bad = "";
+  for (var k in o) { if (typeof k !== "string") bad = "BADKEYTYPE"; n++; }
+  var ks = Object.keys(o), es = Object.entries(o), ns = Object.getOwnPropertyNames(o);
+  if (nstr(ks) !== ks.length || nstr(ns) !== ns.length) bad = "BADKEYTYPE";
+  for (var i = 0; i < es.length; i++) if (typeof es[i][0] !== "string") bad = "BADKEYTYPE";
+  var j = JSON.stringify(o);
+  return R(c, "forin:" + n + bad + " keys:" + ks.length + " entries:" + es.length + " json:" + Object.keys(JSON.parse(j)).length + (j.indexOf("Symbol") >= 0 ? "SYMBOL-IN-JSON" : "") + " names:" + ns.length);
+}
 function op_copy(c, isSet, which) {
   var m = COLS[c];
   var n = isSet ? (which ? new Set(m.values()) : new Set(m)) : (which ? new Map(m.entries()) : new Map(m));
@@ -136,7 +195,8 @@ function op_copy(c, isSet, which) {
 `
 
 var msFnNames = []string{"mkCol", "setScan", "ren", "op_set", "op_add", "op_get", "op_has", "op_delete", "op_clear", "op_size", "op_open", "op_next",
-	"op_forEach", "op_gopen", "op_gnext", "op_greturn", "op_spread", "op_copy"}
+	"op_forEach", "op_gopen", "op_gnext", "op_greturn", "op_spread", "op_copy",
+	"sy_set", "sy_get", "sy_has", "sy_delete", "sy_clear", "sy_snap", "sy_copy", "sy_forin"}
 
 var (
 	msOnce sync.Once
@@ -165,7 +225,7 @@ func msSetGlobals(rt *goja.Runtime) {
 func msInit() {
 	msOnce.Do(func() {
 		msUni = buildUniverse()
-		src := `var SYM_A = Symbol("sym-A"), OBJ_A = {id: 1}, OBJ_B = {id: 2}, ARR_A = [];` + "\n" + msUni.keysSrc + msHelpers
+		src := `var SYM_A = Symbol("sym-A"), OBJ_A = {id: 1}, OBJ_B = {id: 2}, ARR_A = [];` + "\n" + msUni.keysSrc + msPKeysSrc() + msHelpers
 		p, err := goja.Compile("mapsim-setup", src, false)
 		if err != nil {
 			panic("mapsim: setup script does not compile: " + err.Error())
@@ -290,6 +350,8 @@ type msRun struct {
 	fn   map[string]goja.Callable
 
 	pool    [msPoolSize]int
+	spool   [msPoolSize]int // symbol-table runs: indices into PKEYS
+	psyms   []*goja.Symbol  // PKEYS[0..NSYM) as Go values
 	cols    []*msColl
 	colObjs []*goja.Object
 	clients []*msClient
@@ -308,6 +370,9 @@ type msRun struct {
 }
 
 func colType(c *msColl) string {
+	if c.isSym {
+		return "SymTab"
+	}
 	if c.isSet {
 		return "Set"
 	}
@@ -655,6 +720,14 @@ func (r *msRun) execStep(cl *msClient, depth int) {
 	c := st.col
 	coll := r.cols[c]
 	coll.touched |= 1 << uint(cl.id)
+	if coll.isSym {
+		// a step on the symbol table unless it turns out to advance / close an iterator the client owns (on a Map or Set)
+		own := (st.op == mopAdvance && r.ownIter(cl.id, st.sel, false) != nil) || (st.op == mopGenReturn && r.ownIter(cl.id, st.sel, true) != nil)
+		if !own {
+			r.execSym(cl, st, depth)
+			return
+		}
+	}
 	uni := r.pool[st.key]
 	class := u.classOf[uni]
 	op := st.op
@@ -741,6 +814,9 @@ func (r *msRun) execStep(cl *msClient, depth int) {
 		if it = r.ownIter(cl.id, st.sel, true); it == nil {
 			op = mopSize
 		}
+	}
+	if (op == mopOpen || op == mopGenOpen) && coll.isSym {
+		panic("mapsim: iterator requested on a symbol table")
 	}
 	if op == mopOpen || op == mopGenOpen {
 		if slot = r.freeSlot(cl.id); slot < 0 {
@@ -1107,6 +1183,410 @@ func (r *msRun) execStep(cl *msClient, depth int) {
 	}
 }
 
+var symOpNames = [...]string{mopSet: "define", mopGet: "get", mopHas: "has", mopDelete: "delete", mopSize: "count-symbols", mopClear: "delete-all-symbols",
+	mopOpen: "getOwnPropertySymbols", mopAdvance: "", mopForEach: "for-in/keys/JSON", mopGenOpen: "Reflect.ownKeys", mopSpread: "{...o}", mopCopy: "Object.assign",
+	mopExport: "go-Export/Keys", mopGoForOf: "go-Symbols", mopGenReturn: ""}
+
+var symHowNames = [...]string{symAssign: "o[k] = v", symDefine: "defineProperty{enumerable}", symDefineNoEnum: "defineProperty{non-enumerable}",
+	symDefineNoConf: "defineProperty{non-configurable}", symReflectSet: "Reflect.set", symGoSet: "(*Object).SetSymbol", symGoDefineNoEnum: "(*Object).DefineDataPropertySymbol{non-enumerable}"}
+
+var symHowTable = [16]int{symAssign, symAssign, symAssign, symAssign, symAssign, symAssign, symDefine, symDefine, symDefineNoEnum, symDefineNoEnum,
+	symReflectSet, symGoSet, symGoSet, symGoDefineNoEnum, symDefine, symDefineNoConf}
+
+// renderSyms: the live (optionally only the enumerable) symbols of the reference table in creation order.
+func (r *msRun) renderSyms(c *msColl, onlyEnum bool) string {
+	var sb strings.Builder
+	sb.WriteByte('[')
+	first := true
+	for _, idx := range c.liveList() {
+		e := c.entries[idx]
+		if onlyEnum && !e.enum {
+			continue
+		}
+		if !first {
+			sb.WriteByte(',')
+		}
+		first = false
+		fmt.Fprintf(&sb, "S%d=%d", e.class, e.val)
+	}
+	sb.WriteByte(']')
+	return sb.String()
+}
+
+// execSym performs a step on the symbol-keyed properties of an ordinary object.
+func (r *msRun) execSym(cl *msClient, st msStep, depth int) {
+	c := st.col
+	coll := r.cols[c]
+	obj := r.colObjs[c]
+	nsym := len(msSymExprs)
+	key := r.spool[st.key]
+	op := st.op
+	switch op {
+	case mopAdvance:
+		op = mopOpen
+		if st.sel&1 == 1 {
+			op = mopGenOpen
+		}
+	case mopGenReturn:
+		op = mopSize
+	}
+	if key < nsym {
+		switch {
+		case op == mopDelete && st.sel%3 != 0 && coll.live > 0:
+			ll := coll.liveList()
+			key = coll.entries[ll[(st.sel/3)%len(ll)]].class
+		case op == mopSet && st.sel%4 == 1:
+			var dead []int
+			for _, e := range coll.entries {
+				if !e.live && coll.pos[e.class] < 0 {
+					dead = append(dead, e.class)
+				}
+			}
+			if len(dead) > 0 {
+				key = dead[(st.sel/4)%len(dead)]
+			}
+		}
+	}
+	isStr := key >= nsym
+	var sk *msStrKey
+	if isStr {
+		sk = &coll.strs[key-nsym]
+		r.res.Count("symtab-string-key-step", 1)
+	}
+	if depth > 0 {
+		r.res.Count("symtab-step-nested-inside-iteration", 1)
+		if r.frames[len(r.frames)-1].kind == frForEach {
+			r.res.Count("symtab-step-nested-inside-map-forEach", 1)
+		}
+	}
+	anyTomb, anyReadd := false, false
+	for _, e := range coll.entries {
+		if !e.live {
+			anyTomb = true
+			if coll.pos[e.class] >= 0 {
+				anyReadd = true
+			}
+		}
+	}
+	hdr := fmt.Sprintf("#%d client%d %s col%d:SymTab", r.seq, cl.id, symOpNames[op], c)
+	fmt.Fprintf(&r.sig, "%d%c$", cl.id, mopLetters[op])
+	cv, kv := r.iv(c), r.iv(key)
+	ctx := "symtab " + symOpNames[op]
+	unexpected := func(li int, err error) {
+		r.hist[li].got, r.hist[li].open, r.hist[li].bad = errText(err), false, true
+		r.fail("unexpected-exception", ctx, fmt.Sprintf("%s: %s", r.hist[li].text, core.Trunc(errText(err), 300)))
+	}
+	// goSide runs a Go API call on the object and appends the size as the JS helpers do.
+	goSide := func(li int, f func() string) (string, bool) {
+		var out string
+		if ex := r.rt.Try(func() { out = f() }); ex != nil {
+			unexpected(li, ex)
+			return "", false
+		}
+		sz, err := r.call("op_size", cv)
+		if err != nil {
+			unexpected(li, err)
+			return "", false
+		}
+		_, n := splitSize(sz)
+		r.res.Count("symtab-go-api-step", 1)
+		return out + "#" + n, true
+	}
+	snapshotCounters := func() {
+		if anyTomb {
+			r.res.Count("symtab-snapshot-after-delete", 1)
+		}
+		if anyReadd {
+			r.res.Count("symtab-snapshot-after-delete-then-readd", 1)
+		}
+	}
+
+	switch op {
+	case mopSet:
+		r.writes++
+		val := 1000 + r.writes
+		how := symHowTable[st.sel%16]
+		if isStr {
+			switch how {
+			case symReflectSet, symGoSet:
+				how = symAssign
+			case symDefineNoConf:
+				how = symDefine
+			case symGoDefineNoEnum:
+				how = symDefineNoEnum
+			}
+		} else if p := coll.pos[key]; p >= 0 && !coll.entries[p].conf && how != symAssign && how != symReflectSet && how != symGoSet {
+			how = symAssign // redefining a non-configurable property is only done in ways that are permitted
+		}
+		li := r.line(depth, fmt.Sprintf("%s %s   [%s, v=%d]", hdr, msPKeyName(key), symHowNames[how], val))
+		var got string
+		switch how {
+		case symGoSet, symGoDefineNoEnum:
+			var ok bool
+			got, ok = goSide(li, func() string {
+				var err error
+				if how == symGoSet {
+					err = obj.SetSymbol(r.psyms[key], val)
+				} else {
+					err = obj.DefineDataPropertySymbol(r.psyms[key], r.iv(val), goja.FLAG_TRUE, goja.FLAG_TRUE, goja.FLAG_FALSE)
+				}
+				if err != nil {
+					return errText(err)
+				}
+				return "ok"
+			})
+			if !ok {
+				return
+			}
+		default:
+			var err error
+			if got, err = r.call("sy_set", cv, kv, r.iv(val), r.iv(how)); err != nil {
+				unexpected(li, err)
+				return
+			}
+		}
+		if isStr {
+			if !sk.live {
+				sk.live, sk.enum = true, true
+			}
+			sk.val = val
+			switch how {
+			case symDefine:
+				sk.enum = true
+			case symDefineNoEnum:
+				sk.enum = false
+			}
+		} else {
+			present, readd := coll.symDefineProp(key, val, cl.id, how)
+			if readd {
+				r.res.Count("symtab-delete-then-readd", 1)
+			}
+			if present {
+				r.res.Count("symtab-redefine-in-place", 1)
+			}
+			if key >= 7 && key <= 10 {
+				r.res.Count("symtab-wellknown-symbol-defined", 1)
+			}
+			if key >= 4 && key <= 6 {
+				r.res.Count("symtab-registered-symbol-defined", 1)
+			}
+			if how == symDefineNoConf {
+				r.res.Count("symtab-nonconfigurable-defined", 1)
+			}
+		}
+		r.finish(li, got, withSize("ok", coll), "map-result-mismatch", ctx)
+
+	case mopGet:
+		li := r.line(depth, fmt.Sprintf("%s o[%s]", hdr, msPKeyName(key)))
+		got, err := r.call("sy_get", cv, kv)
+		if err != nil {
+			unexpected(li, err)
+			return
+		}
+		exp := "u"
+		if isStr {
+			if sk.live {
+				exp = fmt.Sprint(sk.val)
+			}
+		} else if v, ok := coll.get(key); ok {
+			exp = fmt.Sprint(v)
+		}
+		r.finish(li, got, withSize(exp, coll), "map-result-mismatch", ctx)
+
+	case mopHas:
+		li := r.line(depth, fmt.Sprintf("%s %s in o / hasOwnProperty / Reflect.has / propertyIsEnumerable / descriptor", hdr, msPKeyName(key)))
+		got, err := r.call("sy_has", cv, kv)
+		if err != nil {
+			unexpected(li, err)
+			return
+		}
+		exp := "fff-none"
+		flags := func(enum, conf bool, val int) string {
+			e1, e2, cf := "-", "-", "-"
+			if enum {
+				e1, e2 = "e", "E"
+			}
+			if conf {
+				cf = "C"
+			}
+			return fmt.Sprintf("ttt%s%s%sW:%d", e1, e2, cf, val)
+		}
+		if isStr {
+			if sk.live {
+				exp = flags(sk.enum, true, sk.val)
+			}
+		} else if p := coll.pos[key]; p >= 0 {
+			exp = flags(coll.entries[p].enum, coll.entries[p].conf, coll.entries[p].val)
+		}
+		r.finish(li, got, withSize(exp, coll), "map-result-mismatch", ctx)
+
+	case mopDelete:
+		how := st.sel % 5
+		if isStr && how == 4 {
+			how = 0
+		}
+		li := r.line(depth, fmt.Sprintf("%s %s   [%s]", hdr, msPKeyName(key), [...]string{"delete o[k]", "delete o[k]", "delete o[k]", "Reflect.deleteProperty", "(*Object).DeleteSymbol"}[how]))
+		var got string
+		if how == 4 {
+			var ok bool
+			got, ok = goSide(li, func() string { return fmt.Sprint(obj.DeleteSymbol(r.psyms[key]) == nil) })
+			if !ok {
+				return
+			}
+		} else {
+			var err error
+			if got, err = r.call("sy_delete", cv, kv, r.iv(how/3)); err != nil {
+				unexpected(li, err)
+				return
+			}
+		}
+		ok := true
+		if isStr {
+			sk.live = false
+		} else {
+			var hit bool
+			ok, hit = coll.symDelete(key, cl.id)
+			if hit {
+				r.res.Count("symtab-delete-hit", 1)
+			}
+			if !ok {
+				r.res.Count("symtab-delete-nonconfigurable-refused", 1)
+			}
+		}
+		r.finish(li, got, withSize(fmt.Sprint(ok), coll), "map-result-mismatch", ctx)
+
+	case mopSize:
+		li := r.line(depth, hdr)
+		got, err := r.call("op_size", cv)
+		if err != nil {
+			unexpected(li, err)
+			return
+		}
+		r.finish(li, got, withSize("ok", coll), "size-mismatch", ctx)
+
+	case mopClear:
+		li := r.line(depth, hdr+" getOwnPropertySymbols(o).forEach(s => delete o[s])")
+		got, err := r.call("sy_clear", cv)
+		if err != nil {
+			unexpected(li, err)
+			return
+		}
+		n := 0
+		for _, idx := range coll.liveList() {
+			if coll.entries[idx].conf {
+				coll.del(coll.entries[idx].class, cl.id)
+				n++
+			}
+		}
+		if n > 1 {
+			r.res.Count("symtab-mass-delete", 1)
+		}
+		r.finish(li, got, withSize(fmt.Sprintf("deleted:%d", n), coll), "map-result-mismatch", ctx)
+
+	case mopOpen, mopGenOpen:
+		which := 0
+		if op == mopGenOpen {
+			which = 1
+		}
+		li := r.line(depth, hdr)
+		got, err := r.call("sy_snap", cv, r.iv(which))
+		if err != nil {
+			unexpected(li, err)
+			return
+		}
+		snapshotCounters()
+		exp := r.renderSyms(coll, false)
+		if which == 1 {
+			all, _ := coll.strCounts()
+			exp += fmt.Sprintf("/%d", all)
+			if all > 0 && coll.live > 0 {
+				r.res.Count("symtab-ownKeys-with-string-and-symbol-keys", 1)
+			}
+		}
+		r.finish(li, got, withSize(exp, coll), "iterator-visit-mismatch", ctx)
+
+	case mopSpread, mopCopy:
+		which := 1
+		if op == mopCopy {
+			which = (st.sel % 2) * 2
+		}
+		li := r.line(depth, fmt.Sprintf("%s %s", hdr, [...]string{"Object.assign({}, o)", "{...o}", "Object.assign(Object.create(null), o)"}[which]))
+		got, err := r.call("sy_copy", cv, r.iv(which))
+		if err != nil {
+			unexpected(li, err)
+			return
+		}
+		snapshotCounters()
+		for _, idx := range coll.liveList() {
+			if !coll.entries[idx].enum {
+				r.res.Count("symtab-copy-with-nonenumerable", 1)
+				break
+			}
+		}
+		_, en := coll.strCounts()
+		r.finish(li, got, withSize(fmt.Sprintf("%s/%d", r.renderSyms(coll, true), en), coll), "iterator-visit-mismatch", ctx)
+
+	case mopForEach:
+		li := r.line(depth, hdr)
+		got, err := r.call("sy_forin", cv)
+		if err != nil {
+			unexpected(li, err)
+			return
+		}
+		all, en := coll.strCounts()
+		if coll.live > 0 {
+			r.res.Count("symtab-string-enumeration-with-live-symbols", 1)
+		}
+		r.finish(li, got, withSize(fmt.Sprintf("forin:%d keys:%d entries:%d json:%d names:%d", en, en, en, en, all), coll), "map-result-mismatch", ctx)
+
+	case mopExport:
+		li := r.line(depth, hdr)
+		got, ok := goSide(li, func() string {
+			m, isMap := obj.Export().(map[string]interface{})
+			if !isMap {
+				return fmt.Sprintf("unexpected export type %T", obj.Export())
+			}
+			return fmt.Sprintf("export:%d keys:%d names:%d", len(m), len(obj.Keys()), len(obj.GetOwnPropertyNames()))
+		})
+		if !ok {
+			return
+		}
+		all, en := coll.strCounts()
+		r.finish(li, got, withSize(fmt.Sprintf("export:%d keys:%d names:%d", en, en, all), coll), "export-mismatch", ctx)
+
+	case mopGoForOf:
+		li := r.line(depth, hdr)
+		got, ok := goSide(li, func() string {
+			var sb strings.Builder
+			sb.WriteByte('[')
+			for i, sym := range obj.Symbols() {
+				if i > 0 {
+					sb.WriteByte(',')
+				}
+				k := -1
+				for j, p := range r.psyms {
+					if p == sym {
+						k = j
+					}
+				}
+				v := obj.GetSymbol(sym)
+				if v == nil {
+					fmt.Fprintf(&sb, "S%d=nil", k)
+				} else {
+					fmt.Fprintf(&sb, "S%d=%s", k, v.String())
+				}
+			}
+			sb.WriteByte(']')
+			return sb.String()
+		})
+		if !ok {
+			return
+		}
+		snapshotCounters()
+		r.finish(li, got, withSize(r.renderSyms(coll, true), coll), "export-mismatch", ctx)
+	}
+}
+
 // endIteration closes a forEach / ForOf step.
 func (r *msRun) endIteration(li int, fr *msFrame, got string, err error, c, depth int, ctx, faultCounter string, unexpected func(int, error)) {
 	coll := r.cols[c]
@@ -1189,11 +1669,35 @@ func (e *mapsim) Run(t *core.Tape, want bool) *core.Result {
 	// ---- workload ------------------------------------------------------------------------------------------------
 	nclients := 2 + W.Draw(3)
 	ncols := 1 + W.Draw(2)
-	var isSet []bool
+	// collection kinds: 0 Map, 1 Set, 2 symbol-property table of an ordinary object. A run with a symbol table always
+	// has a Map or Set too, so that symbol-table steps also happen nested inside forEach callbacks and between the
+	// resumptions of live iterators.
+	var kinds []int
 	for i := 0; i < 2; i++ {
-		isSet = append(isSet, W.Draw(2) == 1)
+		kinds = append(kinds, W.Draw(3))
 	}
-	isSet = isSet[:ncols]
+	kinds = kinds[:ncols]
+	if ncols == 1 && kinds[0] == 2 {
+		ncols, kinds = 2, []int{2, 0}
+	} else if ncols == 2 && kinds[0] == 2 && kinds[1] == 2 {
+		kinds[0] = 0
+	}
+	// symbol-table key pool: 8-12 distinct symbols, the remaining slots string / index keys of the same object
+	{
+		nsym := 8 + W.Draw(5)
+		perm := make([]int, len(msSymExprs))
+		for i := range perm {
+			perm[i] = i
+		}
+		for i := 0; i < nsym; i++ {
+			j := i + W.Draw(len(perm)-i)
+			perm[i], perm[j] = perm[j], perm[i]
+			r.spool[i] = perm[i]
+		}
+		for i := nsym; i < msPoolSize; i++ {
+			r.spool[i] = len(msSymExprs) + W.Draw(len(msStrExprs))
+		}
+	}
 	// key pool: a handful of classes, each slot one representation of one of them
 	ncls := 4 + W.Draw(5)
 	var chosen []int
@@ -1267,12 +1771,22 @@ func (e *mapsim) Run(t *core.Tape, want bool) *core.Result {
 		panic("mapsim: setScan failed: " + err.Error())
 	}
 	for i := 0; i < ncols; i++ {
-		v, err := r.fn["mkCol"](goja.Undefined(), r.iv(i), rt.ToValue(isSet[i]))
+		v, err := r.fn["mkCol"](goja.Undefined(), r.iv(i), r.iv(kinds[i]))
 		if err != nil {
 			panic("mapsim: mkCol failed: " + err.Error())
 		}
 		r.colObjs = append(r.colObjs, v.(*goja.Object))
-		r.cols = append(r.cols, newMsColl(isSet[i], len(u.defs)))
+		if kinds[i] == 2 {
+			r.cols = append(r.cols, newMsSymtab())
+			if r.psyms == nil {
+				pk := rt.Get("PKEYS").(*goja.Object)
+				for k := range msSymExprs {
+					r.psyms = append(r.psyms, pk.Get(fmt.Sprint(k)).(*goja.Symbol))
+				}
+			}
+		} else {
+			r.cols = append(r.cols, newMsColl(kinds[i] == 1, len(u.defs)))
+		}
 	}
 
 	// ---- schedule ------------------------------------------------------------------------------------------------
@@ -1317,28 +1831,39 @@ func (e *mapsim) Run(t *core.Tape, want bool) *core.Result {
 	}
 	res.Digest = core.DigestLines(dl)
 	if r.failed {
-		res.Fail(r.failRule, r.failSig, r.failMsg, r.render(nclients, isSet))
+		res.Fail(r.failRule, r.failSig, r.failMsg, r.render(nclients, kinds))
 	}
 	if want {
-		res.Sample = r.render(nclients, isSet)
+		res.Sample = r.render(nclients, kinds)
 	}
 	return res
 }
 
-func (r *msRun) render(nclients int, isSet []bool) string {
+func (r *msRun) render(nclients int, kinds []int) string {
 	u := r.u
 	var sb strings.Builder
 	fmt.Fprintf(&sb, "// %d clients, collections:", nclients)
-	for i, s := range isSet {
-		if s {
-			fmt.Fprintf(&sb, " col%d=Set", i)
+	hasSym, hasMap := false, false
+	for i, k := range kinds {
+		fmt.Fprintf(&sb, " col%d=%s", i, [...]string{"Map", "Set", "SymTab (symbol-keyed properties of an ordinary object)"}[k])
+		if k == 2 {
+			hasSym = true
 		} else {
-			fmt.Fprintf(&sb, " col%d=Map", i)
+			hasMap = true
 		}
 	}
-	fmt.Fprintf(&sb, "; callback faults %v\n// key pool (Kn = canonical index of the key's SameValueZero class):\n", r.faulty)
-	for j, uni := range r.pool {
-		fmt.Fprintf(&sb, "//   slot%-2d %s\n", j, u.keyName(uni))
+	fmt.Fprintf(&sb, "; callback faults %v\n", r.faulty)
+	if hasMap {
+		sb.WriteString("// key pool (Kn = canonical index of the key's SameValueZero class):\n")
+		for j, uni := range r.pool {
+			fmt.Fprintf(&sb, "//   slot%-2d %s\n", j, u.keyName(uni))
+		}
+	}
+	if hasSym {
+		sb.WriteString("// property-key pool of the symbol table (Sn = index of the symbol):\n")
+		for j, k := range r.spool {
+			fmt.Fprintf(&sb, "//   slot%-2d %s\n", j, msPKeyName(k))
+		}
 	}
 	for _, cl := range r.clients {
 		fmt.Fprintf(&sb, "// client%d script:", cl.id)
